@@ -56,6 +56,7 @@ func (k *Keys) GetCursorPos() (x, y int) {
 		if len(match) == 0 && len(cursor) > 0 {
 			k.mutex.RLock()
 			k.buf = append(k.buf, cursor...)
+			k.mustWait = false
 			k.mutex.RUnlock()
 
 			continue
@@ -71,6 +72,7 @@ func (k *Keys) GetCursorPos() (x, y int) {
 		if _, remain := k.extractCursorPos(cursor); len(remain) > 0 {
 			k.mutex.RLock()
 			k.buf = append(k.buf, remain...)
+			k.mustWait = false
 			k.mutex.RUnlock()
 		}
 
